@@ -633,3 +633,39 @@ func Determinism(t *testing.T, w World) {
 		t.Fatal(err)
 	}
 }
+
+// Diverge runs one run index twice (after VERIF_DIVERGE_WARM earlier runs, to reproduce
+// cross-run effects) with event logs and prints where they first differ.
+func Diverge(t *testing.T, w World) {
+	prop := os.Getenv("VERIF_PROP")
+	if prop == "" || os.Getenv("VERIF_DIVERGE") == "" {
+		t.Skip("VERIF_PROP / VERIF_DIVERGE not set")
+	}
+	idx := envInt("VERIF_DIVERGE", 0)
+	seed := envU64("VERIF_SEED", 1)
+	for k := envInt("VERIF_DIVERGE_WARM", 0); k > 0; k-- {
+		RunOne(t, w, prop, "quick", seed, idx-k, false)
+	}
+	sc, r1 := RunOne(t, w, prop, "quick", seed, idx, true)
+	_, r2 := RunOne(t, w, prop, "quick", seed, idx, true)
+	b, _ := json.Marshal(sc)
+	fmt.Printf("scenario: %s\n", b)
+	n := min(len(r1.Log), len(r2.Log))
+	for i := 0; i < n; i++ {
+		if evs(r1.Log[i]) != evs(r2.Log[i]) {
+			for j := max(0, i-12); j <= min(n-1, i+3); j++ {
+				mark := "  "
+				if j == i {
+					mark = "!!"
+				}
+				fmt.Printf("%s A %s\n%s B %s\n", mark, evs(r1.Log[j]), mark, evs(r2.Log[j]))
+			}
+			return
+		}
+	}
+	fmt.Printf("logs agree on the first %d events; lengths %d / %d; digests %x / %x\n", n, len(r1.Log), len(r2.Log), r1.Digest, r2.Digest)
+}
+
+func evs(e simrt.Event) string {
+	return fmt.Sprintf("%6d %10.3fs t%-3d %-12s %s", e.Seq, e.At.Seconds(), e.Task, e.Site, e.Msg)
+}
